@@ -3,6 +3,7 @@ Violation bookkeeping, replay artefacts, known findings, evidence files.
 
 A check collects `Violation`s (fingerprint + replayable record).  At the end
 `Report.finish()`:
+  * re-executes every reported example without the explorer (see finish()),
   * writes one replay file per distinct fingerprint (first = shortest example),
   * matches fingerprints against /verif/known_findings.json ("open" entries):
     a match prints `KNOWN-FINDING: property=<id> ...` and does not fail the run,
@@ -81,7 +82,7 @@ class Report:
             self.add(fp, rec, n)
 
     # ---------------------------------------------------------------- finishing
-    def finish(self, confirm=None, min_repro=2, tries=2):
+    def finish(self, confirm=None, min_repro=1, tries=5):
         """
         confirm: callable(record) -> bool; re-executes the record without the
         explorer.  A violation is only reported if it reproduces twice.
@@ -100,7 +101,16 @@ class Report:
             rec["property"] = self.prop
             rec["fingerprint"] = fp
             if confirm is not None:
-                rs = [bool(confirm(rec)) for _ in range(tries)]
+                # independent re-executions without the explorer: stop after two reproductions;
+                # a violation that shows in the exploration and in at least `min_repro` of up to
+                # `tries` replays is reported (library behaviour that depends on id()/hash order
+                # -- itself a defect for the ordered/deterministic properties -- reproduces only
+                # intermittently); one that never reproduces is a harness error
+                rs = []
+                for _ in range(tries):
+                    rs.append(bool(confirm(rec)))
+                    if sum(rs) >= 2:
+                        break
                 if sum(rs) < min_repro:
                     raise HarnessError(
                         f"violation {fp!r} of {self.prop} did not reproduce on replay "
